@@ -329,6 +329,8 @@ def gen_world(rng, *, convs=CONVS, max_n=5, max_faces=10, max_vars=5, allow_hole
             'tables': tables, 'edge_dim_attr': has_edges and rng.random() < 0.6,
             'face_dim_attr': rng.random() < 0.6 or 'face_node' in [],
             'conn_dtype': rng.choice(['i4', 'i4', 'i2', 'i8']),
+            # the size-2 dimension of the edge tables: the conventional name or any other
+            'two_dim': rng.choice(['Two', 'Two', 'nv2', 'pair']),
             'face_coords': rng.random() < 0.3,
             'coords_as_vars': False,
         })
@@ -845,6 +847,10 @@ class World:
                  'face_edge': ('nMesh2_face', 'nMaxMesh2_face_nodes'), 'edge_face': ('nMesh2_edge', 'Two'),
                  'face_face': ('nMesh2_face', 'nMaxMesh2_face_nodes')}
 
+    def conn_dims(self, table):
+        two = self.spec.get('two_dim', 'Two')
+        return tuple(two if d == 'Two' else d for d in self.CONN_DIMS[table])
+
     def start_index(self, table):
         return (self.spec.get('start_index_of') or {}).get(table, self.spec['start_index'])
 
@@ -858,7 +864,7 @@ class World:
         has_missing = any(x is None for r in rows for x in r)
         repr_ = s['fill_repr']
         name = self.CONN_NAMES[table]
-        dims = list(self.CONN_DIMS[table])
+        dims = list(self.conn_dims(table))
         attrs = {'cf_role': table + '_connectivity', 'long_name': table, 'start_index': si}
         if repr_ == 'nan':
             data = numpy.array([[numpy.nan if x is None else x + si for x in r] for r in rows], dtype='float64')
